@@ -72,6 +72,10 @@ def stmt_code(s, ctx):
         val = ["PUSH0"] if s[1] == "CALL" else []
         return ([("push", 32), "PUSH0", "PUSH0", "PUSH0"] + val + expr_code(s[2]) + [("push", 0xFFFF), s[1]]
                 + [("push", ctx.out_slot()), "MSTORE", "PUSH0", "MLOAD", ("push", ctx.out_slot()), "MSTORE"])
+    if k == "create_probe":  # code size of the account e before and after a CREATE (of a 1-byte contract) in this frame
+        probe = expr_code(s[1]) + ["EXTCODESIZE", ("push", ctx.out_slot()), "MSTORE"]
+        create = [("pushn", 4, 0x60015FF3), ("push", 224), "SHL", ("push", 0x1E00), "MSTORE", ("push", 4), ("push", 0x1E00), "PUSH0", "CREATE", "POP"]
+        return probe + create + expr_code(s[1]) + ["EXTCODESIZE", ("push", ctx.out_slot()), "MSTORE"]
     if k == "if":  # ("if", cond, [stmts])
         lab = ctx.label()
         body = []
@@ -123,6 +127,8 @@ def stmt_str(s):
         return f"extcodecopy({s[1]:#x},{s[2]},{s[3]},{s[4]})"
     if k == "callx":
         return f"callx({s[1]},{expr_str(s[2])})"
+    if k == "create_probe":
+        return f"create_probe({expr_str(s[1])})"
     if k == "if":
         return f"if({expr_str(s[1])}){{{';'.join(stmt_str(t) for t in s[2])}}}"
     if k == "ifelse":
@@ -249,6 +255,7 @@ def statements(kind):
         S.append(("out", ("balance", X)))
         S.append(("callx", "CALL", X))
         S.append(("callx", "STATICCALL", X))
+        S.append(("create_probe", X))
     # branches
     bodies = [[("sstore", K0, K1)], [("mstore", 0, KMAX)], [("revert", 0, 32)], [("invalid",)], [("out", K1)]]
     for c in CONDS if full else CONDS[:2]:
